@@ -33,6 +33,7 @@
 (*   hash   0 / 1 = the two candidate blocks of the round (proposed / empty), 9 = zero hash        *)
 (*   parent 0 = hash of the previous block, other = another hash                                  *)
 (*   step   the real step number (1, 2, ..., 255 = Final)                                         *)
+(*   flag   the per-signature fields that are signed too: 0 none, 1 TurnOffline, 2 Upgrade          *)
 EXTENDS Integers, Sequences, FiniteSets, TLC
 
 CONSTANT Params   \* [pctN, pctF, agree : 1/10000 units, maxc : Nat]  (config/consensus.go: 3000, 7000, 6500, 100)
